@@ -222,6 +222,43 @@ def generic_bases(chk):
                         st.is_eq_constraint_satisfied(atol), st.is_ineq_constraint_satisfied(atol), lam, tr_ok, psd_ok), dict(basis=bname, lam=lam))
 
 
+def textbook_maps(chk):
+    """Maps whose verdict every textbook states: positive but NOT completely positive maps (transpose, partial transpose, inversion
+    of the Bloch vector) - trace preserving, Hilbert-Schmidt matrix orthogonal, Choi matrix with eigenvalue -1/2 or below - next to
+    unitary conjugations, which share the orthogonal HS matrix and ARE completely positive."""
+    from quara.objects.gate import Gate
+    from quara.objects.mprocess import MProcess
+    from harness import qobjs
+    c1, c2 = qobjs.csys("qubit", 1), qobjs.csys("qubit", 2)
+    T1 = np.diag([1.0, 1.0, -1.0, 1.0])                      # rho -> rho^T in the Pauli basis: Y changes sign
+    inv = np.diag([1.0, -1.0, -1.0, -1.0])                   # Bloch vector -> minus itself
+    cases = [("transpose", c1, T1, False), ("bloch_inversion", c1, inv, False), ("partial_transpose", c2, np.kron(np.eye(4), T1), False),
+             ("x_gate", c1, np.diag([1.0, 1.0, -1.0, -1.0]), True), ("identity", c1, np.eye(4), True)]
+    for name, c, hs, cp in cases:
+        for atol in (None, 1e-13, 1e-8, 1e-2):
+            chk.count(1, ("textbook", name, atol))
+            try:
+                g = Gate(c, hs.copy(), is_physicality_required=False)
+                m = MProcess(c, [hs.copy()], is_physicality_required=False)
+                got = [bool(g.is_cp(atol)), bool(g.is_ineq_constraint_satisfied(atol)), bool(g.is_physical(atol, atol) if atol else g.is_physical()),
+                       bool(m.is_cp(atol)), bool(g.is_tp(atol))]
+                want = [cp, cp, cp, cp, True]
+                if got != want:
+                    chk.violation("textbook:%s" % name, "%s map at atol %s: is_cp / is_ineq / is_physical / MProcess.is_cp / is_tp = %s, by definition %s" % (name, atol, got, want), dict(map=name, atol=atol))
+                    break
+                if atol is None:
+                    try:
+                        Gate(c, hs.copy(), is_physicality_required=True)
+                        made = True
+                    except ValueError:
+                        made = False
+                    if made != cp:
+                        chk.violation("textbook:construct:%s" % name, "constructor with physicality required %s the %s map" % ("accepts" if made else "refuses", name), dict(map=name))
+            except Exception as e:
+                chk.violation("textbook:exception:%s" % name, "%r" % e, dict(map=name))
+                break
+
+
 def run(chk):
     from quara.settings import Settings
     rs = np.random.RandomState(chk.seed % (2 ** 31))
@@ -322,6 +359,7 @@ def run(chk):
     finally:
         Settings.set_atol(default_atol)
     generic_bases(chk)
+    textbook_maps(chk)
     chk.assumptions += [
         "guard band: verdicts are unconstrained for deviations between 0.9 and 1.1 atol",
         "deviations are scalars (trace, multiple of identity, one HS entry, one eigenvalue) so every norm gives the same magnitude",
